@@ -27,6 +27,9 @@ type CtlCase struct {
 	// TightLimit: SetReadLimit(largest message's size on the wire): control
 	// frames are not part of any message, so nothing may change.
 	TightLimit bool `json:"tight_limit,omitempty"`
+	// StaleWriteDeadline: the application's own write deadline has long
+	// passed; automatic replies are not subject to it.
+	StaleWriteDeadline bool `json:"stale_write_deadline,omitempty"`
 }
 
 var errHandler = errors.New("harness: handler says no")
@@ -50,6 +53,7 @@ func genCtlCase(t *rapid.T) CtlCase {
 	c.FailAt = rapid.IntRange(0, 6).Draw(t, "fail_at")
 	c.LocalClose = rapid.IntRange(0, 4).Draw(t, "local_close") == 0
 	c.TightLimit = rapid.IntRange(0, 3).Draw(t, "tight_limit") == 0
+	c.StaleWriteDeadline = rapid.IntRange(0, 3).Draw(t, "stale_wdl") == 0
 	return c
 }
 
@@ -73,6 +77,10 @@ func checkC08(c CtlCase, o *Obs) error {
 		h.failAt = c.FailAt
 	}
 	h.install(conn)
+	if c.StaleWriteDeadline {
+		conn.SetWriteDeadline(time.Now().Add(-time.Hour))
+		o.Class("stale_write_deadline")
+	}
 	if c.TightLimit {
 		limit := 1
 		for _, m := range model.Msgs {
